@@ -319,7 +319,16 @@ func runC17E2E(t *testing.T, rng *rand.Rand, rec *sim.Rec, tier string, caseNo i
 	logs := sim.NewLogSink()
 	gen := &simpleGen{n: n}
 	// the operator's realm is used exactly as configured, whatever its letter case or script
-	realm := pick(rng, []string{"verif.test", "Pion.LY", "EXAMPLE.ORG", "Straße.example", "re%alm", "пример.рф"})
+	realm := pick(rng, []string{"verif.test", "Pion.LY", "EXAMPLE.ORG", "Straße.example", "re%alm", "пример.рф", ""}) // ("": the operator configured none)
+	// what the application configured as the client's realm is a hint at most: the server's
+	// challenge says which realm the key is for
+	clientRealm := realm
+	switch rng.Intn(4) {
+	case 0:
+		clientRealm = ""
+	case 1:
+		clientRealm = pick(rng, []string{"placeholder.invalid", strings.ToUpper(realm) + "x", "verif.test."})
+	}
 	user := pick(rng, []string{"alice", "room42:device7", "@alice:example.org", "a b", "50%off",
 		"jean\u00a0luc", "room\u20097", "\u3000padded\u3000", "na\u00efve-\u00fc\u00df", "\u202fthin"}) // (no-break, thin, ideographic spaces: bytes like any others)
 	srv, err := turn.NewServer(turn.ServerConfig{
@@ -333,7 +342,7 @@ func runC17E2E(t *testing.T, rng *rand.Rand, rec *sim.Rec, tier string, caseNo i
 	username, password, _ := kind.gen(secret, user, dur)
 	expiry := time.Now().Add(dur).Unix()
 	try := func(port int, pw string) error {
-		rc, err := sim.NewRealClient(n, net.IPv4(10, 1, 0, 1).To4(), port, "10.0.0.1:3478", username, pw, realm, 0, logs, nil)
+		rc, err := sim.NewRealClient(n, net.IPv4(10, 1, 0, 1).To4(), port, "10.0.0.1:3478", username, pw, clientRealm, 0, logs, nil)
 		if err != nil {
 			return err
 		}
@@ -379,7 +388,7 @@ func runC17E2E(t *testing.T, rng *rand.Rand, rec *sim.Rec, tier string, caseNo i
 			rec.FP("e2e/%s/reused-after-expiry", kind.name)
 		}
 	}
-	rec.FP("e2e/%s/late=%v", kind.name, late)
+	rec.FP("e2e/%s/late=%v/server-realm-empty=%v/client-realm=%s", kind.name, late, realm == "", map[bool]string{true: "same", false: "other-or-none"}[clientRealm == realm])
 	rec.SetSample(map[string]any{"kind": kind.name + "-e2e", "late": late, "duration": dur.String()})
 }
 
